@@ -229,6 +229,7 @@ impl C09 {
         let mut ls = LockStep::new("C09", &setup);
         ls.compare = Compare::Off;
         ls.check_cost = true;
+        ls.lenient = true;
         let mut mon = WordMon::new(&ls.sut);
         let label = |e: Violation| -> Violation {
             let mut e = e;
